@@ -358,8 +358,14 @@ func (p *Program) Build(extra ...func(*rux.Router)) *rux.Router {
 					}
 				}
 			case NotFoundStmt:
+				if len(x.H)%2 == 1 {
+					r.NotFound(progReplacedFallback, progReplacedFallback) // defaults installed first (by a framework layer), replaced by the application's
+				}
 				r.NotFound(handlersOf(x.H)...)
 			case NotAllowedStmt:
+				if len(x.H)%2 == 0 {
+					r.NotAllowed(progReplacedFallback)
+				}
 				r.NotAllowed(handlersOf(x.H)...)
 			}
 		}
@@ -685,4 +691,14 @@ func (rs *RouteStmt) RequestPath(r *rand.Rand) string {
 		p = strings.ReplaceAll(p, "[.html]", pick(r, []string{"", ".html"}))
 	}
 	return strings.ReplaceAll(p, "{gid}", pick(r, []string{"7", "red"}))
+}
+
+
+// progReplacedFallback is a not-found / not-allowed handler that is installed and then replaced by
+// the program's own list: it must never run.
+func progReplacedFallback(c *rux.Context) {
+	if rec := recOf(c); rec != nil {
+		rec.Ev("enter(replaced-fallback-handler)")
+	}
+	c.Next()
 }
